@@ -198,6 +198,29 @@ def check(case):
                 out.fail('own-points-unchanged@%s' % kind, '%s: values on own points changed' % mol)
             with np.errstate(all='ignore'):
                 foreign = np.asarray(cut(out, 'opacity@foreign', op.opacity, Tq, Pq, sub.copy()), dtype=float)
+            # sequence on the same object: right after the own-points request, a request with the same number of points
+            # and the same end points but other interior points (not native ones) -- still between the neighbours
+            g1 = own[a:bnd + 1]
+            if len(g1) >= 3:
+                t_ = (g1 - g1[0]) / (g1[-1] - g1[0])
+                g2 = g1[0] + (g1[-1] - g1[0]) * (0.5 * t_ + 0.5 * t_ ** 2)
+                g2[0], g2[-1] = g1[0], g1[-1]
+                with np.errstate(all='ignore'):
+                    cut(out, 'opacity@own-subrange', op.opacity, Tq, Pq, g1.copy())
+                    seq = np.asarray(cut(out, 'opacity@foreign-after-own', op.opacity, Tq, Pq, g2.copy()), dtype=float)
+                out.applies('foreign-after-own')
+                if seq.shape != g2.shape:
+                    out.fail('foreign-after-own@shape', '%s' % (seq.shape,))
+                else:
+                    for x, v in zip(g2, seq):
+                        j = int(np.searchsorted(own, x))
+                        if j < len(own) and own[j] == x:
+                            lo = hi = allv[j]
+                        else:
+                            lo, hi = min(allv[j - 1], allv[j]), max(allv[j - 1], allv[j])
+                        if not (lo * (1 - 1e-12) - 1e-300 <= v <= hi * (1 + 1e-12) + 1e-300):
+                            out.fail('foreign-after-own@%s' % kind, '%s at %.6g: %r outside neighbouring native values [%r, %r]' % (mol, x, v, lo, hi))
+                            break
             out.applies('foreign-points-bracketed')
             if foreign.shape != sub.shape:
                 out.fail('foreign-points-bracketed@shape', '%s' % (foreign.shape,))
